@@ -83,6 +83,10 @@ func (f ocsfFormatter) getMatchDetails(al plugintypes.AuditLog) []*objects.Enric
 	matchDetails := []*objects.Enrichment{}
 
 	for _, match := range al.Messages() {
+		// Without part K the messages only carry the error line (part H) and no rule data
+		if md, ok := match.Data().(*MessageData); ok && md == nil {
+			continue
+		}
 		matchData, _ := json.Marshal(match.Data())
 		matchDetails = append(matchDetails, &objects.Enrichment{
 			Data:  string(matchData),
